@@ -162,4 +162,79 @@ def _modes_of_clones(ctx):
                     ctx.violation("clone-keeps-coercion-mode-of-the-original", f"{first} -> clone -> clone back: {warm!r:.60} vs {back!r:.60}", {"type": repr(tp)})
 
 
-DIRECTED = {"coercion-mode-of-clones": _modes_of_clones, "scalar-table-x-pool": _table, "confusable-literals-in-one-type": _confusable_literals, "confusable-literals-one-by-one": _confusable_literals_one_by_one}
+def _enum_members_in_literals(ctx):
+    """Literal of enum members under every enum representation: whatever strict accepts lax accepts too, with an equal value of the same
+    type, and every accepted load returns a MEMBER of the literal - a look-alike of a mixed-in member (1, True, 1.0 for IE.A == 1) is
+    never returned as is (defect #89: the untyped fallback membership test compared the data with the members themselves)."""
+    import enum  # noqa: PLC0415
+    import typing as t  # noqa: PLC0415
+
+    from adaptix import Retort, enum_by_name, enum_by_value  # noqa: PLC0415
+
+    class IE(enum.IntEnum):
+        A = 1
+        B = 2
+
+    class SE(str, enum.Enum):
+        X = "x"
+    cases = [(t.Literal[IE.A], (IE.A,)), (t.Literal[IE.A, "x", 5], (IE.A, "x", 5)), (t.Literal[SE.X, 0], (SE.X, 0)), (t.List[t.Literal[IE.A, IE.B]], None)]
+    data = [1, True, 1.0, 2, "A", "a", "x", "X", 0, False, 5, IE.A, SE.X, None]
+    for pname, mk in (("default", lambda: []), ("enum_by_value", lambda: [enum_by_value(IE, tp=int)]), ("enum_by_name", lambda: [enum_by_name()])):
+        for dt in DEBUG_MODES:
+            strict, lax = Retort(recipe=mk(), debug_trail=dt, strict_coercion=True), Retort(recipe=mk(), debug_trail=dt, strict_coercion=False)
+            for hint, members in cases:
+                for d in data:
+                    datum = [d] if members is None else d
+                    a, b = attempt(strict.load, datum, hint), attempt(lax.load, datum, hint)
+                    ctx.evaluated(("enum-literal", pname, repr(hint), repr(d), dt.name), nontrivial=True)
+                    ctx.count("pairs")
+                    info = {"provider": pname, "type": repr(hint), "datum": repr(d), "mode": dt.name}
+                    if a.kind == "ok" and (b.kind != "ok" or type(a.value) is not type(b.value) or a.value != b.value):
+                        ctx.violation("strict-and-lax-load-differently:Literal:enum-member", f"{pname} {hint!r} <- {d!r}: strict {a!r:.80}, lax {b!r:.80}", info)
+                    for which, o in (("strict", a), ("lax", b)):
+                        if o.kind != "ok":
+                            continue
+                        got = o.value[0] if members is None else o.value
+                        legal = (IE.A, IE.B) if members is None else members
+                        # a look-alike of a PLAIN member (2.0 for 2, SE.X for 'x') is the documented grey zone of Literal; one of an ENUM member is not
+                        if not any(got is m or (not isinstance(m, enum.Enum) and got == m) for m in legal):
+                            ctx.violation("literal-returns-non-member:enum-member", f"{pname} {which} {hint!r} <- {d!r}: returned {got!r} ({type(got).__name__}), which is no member of the literal", info)
+
+
+def _list_layouts_refuse_mappings(ctx):
+    """'No dict or str to a list' also where the list is the layout of a MODEL (name_mapping(as_list=True), nested list paths): a mapping
+    with integer keys passes every lookup by index (defect #88); lax may take it, strict never."""
+    import collections  # noqa: PLC0415
+    import types  # noqa: PLC0415
+    import typing as t  # noqa: PLC0415
+    from dataclasses import make_dataclass  # noqa: PLC0415
+
+    from adaptix import Retort, name_mapping  # noqa: PLC0415
+    from adaptix.load_error import LoadError  # noqa: PLC0415
+    ML = make_dataclass("ML", [("a", int), ("b", str)])
+    NT = t.NamedTuple("NTL", [("a", int), ("b", str)])
+    Nested = make_dataclass("Nested", [("a", int), ("b", str)])
+    shapes = [("as_list", ML, [name_mapping(ML, as_list=True)], lambda d: d), ("namedtuple-as_list", NT, [name_mapping(NT, as_list=True)], lambda d: d),
+              ("nested-list-path", Nested, [name_mapping(Nested, map={"a": ("pair", 0), "b": ("pair", 1)})], lambda d: {"pair": d})]
+    data = [("dict-int-keys", {0: 1, 1: "x"}), ("dict-int-keys+junk", {0: 1, 1: "x", "junk": 3}), ("mappingproxy", types.MappingProxyType({0: 1, 1: "x"})),
+            ("ordered-dict", collections.OrderedDict([(0, 1), (1, "x")])), ("str", "1x"), ("list", [1, "x"]), ("tuple", (1, "x"))]
+    for label, cls, recipe, wrap in shapes:
+        for dt in DEBUG_MODES:
+            strict, lax = Retort(recipe=recipe, debug_trail=dt, strict_coercion=True), Retort(recipe=recipe, debug_trail=dt, strict_coercion=False)
+            for dl, d in data:
+                a, b = attempt(strict.load, wrap(d), cls), attempt(lax.load, wrap(d), cls)
+                ctx.evaluated(("list-layout", label, dl, dt.name), nontrivial=True)
+                ctx.count("pairs")
+                info = {"layout": label, "datum": dl, "mode": dt.name}
+                if dl in ("list", "tuple"):
+                    if a.kind != "ok" or b.kind != "ok":
+                        ctx.violation("list-layout-refuses-a-sequence", f"{label} <- {dl}: strict {a!r:.80}, lax {b!r:.80}", info)
+                elif a.kind == "ok":
+                    ctx.violation(f"strict-origin-outside-table:list-layout:{type(d).__name__}", f"strict {label} accepted the {dl} {d!r} -> {a.value!r}", info)
+                elif not isinstance(a.exc, LoadError) and not all(isinstance(e, LoadError) for e in getattr(a.exc, "exceptions", ()) or [a.exc]):
+                    ctx.violation(f"non-loaderror:list-layout:{type(a.exc).__name__}", f"strict {label} <- {dl}: {a.exc!r:.120}", info)
+                if a.kind == "ok" and b.kind != "ok":
+                    ctx.violation("strict-accepts-what-lax-rejects:list-layout", f"{label} <- {dl}: strict {a!r:.80}, lax {b!r:.80}", info)
+
+
+DIRECTED = {"list-layouts-refuse-mappings": _list_layouts_refuse_mappings, "enum-members-in-literals": _enum_members_in_literals, "coercion-mode-of-clones": _modes_of_clones, "scalar-table-x-pool": _table, "confusable-literals-in-one-type": _confusable_literals, "confusable-literals-one-by-one": _confusable_literals_one_by_one}
